@@ -133,6 +133,11 @@ def run(tier):
                 bs = realise(pat, m)
                 if bs is not None:
                     swap_in.append((bs, m))
+    # multiples above the byte range: only 0 is a multiple; 0xFF and 0x01 are not, whatever the multiple is reduced to
+    for m in (256, 257, 510, 1000, 65536):
+        for L in range(2, 5 if quick else 7):
+            for t in itertools.product((0, 255, 1, 254), repeat=L):
+                swap_in.append((list(t), m))
     for _ in range(300 if quick else 5000):
         m = rng.choice([rng.randrange(0, 301), rng.randrange(1, 12), rng.choice(mults), -rng.randrange(1, 5)])
         n = rng.choice([rng.randrange(0, 30), rng.randrange(0, 500 if not quick else 150)])
